@@ -12,6 +12,14 @@
      {"op":"GC", n}   {"op":"Register", c, g, ok}   {"op":"Switch", k, v, dbg, trc}
      {"op":"SwitchOff", dbg, trc}   {"op":"SetWidth", w}   {"op":"SetMinW", m}
      {"op":"SetColors", c, fg, bg}   slog.SetLevelColors(concrete severity of c, colour of class fg, of class bg)
+     {"op":"Wire", l, w}             the destinations of the logger of slot l are now DestForms[w]
+   An Emit line describes the delivery [l, r, d = 0, k = 1] of EncoderHist!Deliveries - the record
+   as the FIRST destination of logger l found it in its argument when it read it; every other
+   delivery of the same Emit (records the destinations logged from inside Write, the same record
+   at a second destination) is an element of the line's "sub": {l, r, sev, msg, args, caller,
+   cfile, obs, d, k}, in the order of Deliveries.  The monitor checks that the list IS
+   Deliveries(ms, l, r) (otherwise "@@shape": harness and model disagree - no verdict) and judges
+   every delivery like a record of its own.
 
    The monitor consumes one line per step and maintains the model state ms of EncoderHist
    (same step operators).  Where a public getter exists the monitor ADOPTS its answer (logger
@@ -20,7 +28,8 @@
    A difference between the planned (CfgStep) and the reported mode is printed as "@@note".
    Every Emit is judged by HDiag against ExpRecOf(ms, ...): a function of ms and the record,
    never of the lines consumed before.  Rejected lines:
-        @@bad {"line": i, "diag": [...], "fmt": f, "l": l, "feats": [...]}
+        @@bad {"line": i, "sub": j, "diag": [...], "fmt": f, "l": l, "feats": [...]}     (j = 0: the line's own
+                                                   delivery, j > 0: element j of its sub)
    and "@@done [nbad, nskip]" at the end of the log.                                        *)
 EXTENDS EncoderHist, Json
 
@@ -46,15 +55,22 @@ HFeats(rec) ==
     \cup (IF rec.lc.set THEN {"colours:" \o rec.lc.fg \o "+" \o rec.lc.bg} ELSE {})
     \cup (IF rec.caller /\ rec.cfile # "plain" THEN {"caller:" \o rec.cfile} ELSE {})
     \cup {"member-key:" \o x[1] \o ":" \o x[2] : x \in MemberReserved(rec.attrs, 0)}
+\* where a delivery sits in the nesting of its Emit
+NestFeats(s, x) ==
+    (IF x.d > 0 THEN {"nest:nested"} ELSE {})
+    \cup (IF DestLogs(s, x) THEN {"nest:destination-logs"} ELSE {})
+    \cup (IF EarlierLogs(s, x) THEN {"nest:earlier-destination-logs"} ELSE {})
+    \cup (IF x.k > 1 THEN {"nest:second-destination"} ELSE {})
 
 Blank == [testing |-> FALSE, dbg |-> FALSE, trc |-> FALSE, width |-> 3, minw |-> 36,
-          reg |-> [c \in Customs |-> "none"], col |-> [v \in ColSevs |-> NoLC], mode |-> InitMode, named |-> InitNamed]
+          reg |-> [c \in Customs |-> "none"], col |-> [v \in ColSevs |-> NoLC], mode |-> InitMode, named |-> InitNamed,
+          dest |-> InitDest]
 
 StateAtReset(e) ==
     [testing |-> e.testing, dbg |-> e.dbg, trc |-> e.trc, width |-> e.width, minw |-> e.minw,
      reg |-> [c \in Customs |-> "none"], col |-> [v \in ColSevs |-> NoLC],
      mode |-> [l \in Loggers |-> GetterMode(e.modes[l][1], e.modes[l][2])],
-     named |-> [l \in Loggers |-> e.named[l]]]
+     named |-> [l \in Loggers |-> e.named[l]], dest |-> InitDest]
 
 \* the model state after a non-Emit line
 After(s, e) ==
@@ -65,6 +81,7 @@ After(s, e) ==
       [] e.op = "SetWidth"  -> IF e.w \in 1..5 THEN [s EXCEPT !.width = e.w] ELSE s
       [] e.op = "SetMinW"   -> IF e.m >= 16 THEN [s EXCEPT !.minw = e.m] ELSE s
       [] e.op = "SetColors" -> IF e.c \in ColSevs THEN ColStep(s, e.c, e.fg, e.bg) ELSE s
+      [] e.op = "Wire"      -> IF e.l \in Loggers /\ e.w \in DOMAIN DestForms THEN WireStep(s, e.l, e.w) ELSE s
       [] OTHER              -> s                      \* GC
 
 TInit == /\ i = 1 /\ ms = Blank /\ nbad = 0 /\ nskip = 0
@@ -82,15 +99,31 @@ TNext ==
                THEN PrintT("@@note " \o ToJson([line |-> i, planned |-> CfgStep(ms, e.l, CfgForms[e.f]).mode[e.l],
                                                 reported |-> GetterMode(e.jm, e.cm), jm |-> e.jm, cm |-> e.cm]))
                ELSE TRUE
-       ELSE LET rec == ExpRecOf(ms, e.l, e.sev, e.msg, Own[e.l] \o e.args, e.caller, e.cfile) IN
+       ELSE LET subs == IF "sub" \in DOMAIN e THEN e.sub ELSE <<>>
+                \* all deliveries of this Emit: the line's own one first
+                all == <<[l |-> e.l, r |-> e.r, sev |-> e.sev, msg |-> e.msg, args |-> e.args, caller |-> e.caller,
+                          cfile |-> e.cfile, obs |-> e.obs, d |-> 0, k |-> 1]>> \o subs
+                want == Deliveries(ms, e.l, e.r)
+                Key(x) == [l |-> x.l, r |-> x.r, d |-> x.d, k |-> x.k]
+                first == [l |-> e.l, r |-> e.r, d |-> 0, k |-> 1]
+                shapeok == /\ e.r \in RcIds
+                           /\ Len(want) = Len(all)
+                           /\ \E p \in DOMAIN want :
+                                 /\ want[p] = first
+                                 /\ \A j \in DOMAIN subs : Key(subs[j]) = want[IF j < p THEN j ELSE j + 1]
+                RecOf(x) == ExpRecOf(ms, x.l, x.sev, x.msg, Own[x.l] \o x.args, x.caller, x.cfile)
+                DiagOf(x) == IF ~InDomain(RecOf(x)) THEN {}
+                             ELSE HDiag(RecOf(x), ExpTagSrc(ms, x.sev), ExpNameSrc(ms, x.sev), x.obs)
+                badset == {j \in DOMAIN all : DiagOf(all[j]) # {}}
+            IN
             /\ ms' = ms                               \* formatting a record changes nothing
-            /\ IF ~InDomain(rec) THEN nskip' = nskip + 1 /\ nbad' = nbad
-               ELSE LET d == HDiag(rec, ExpTagSrc(ms, e.sev), ExpNameSrc(ms, e.sev), e.obs) IN
-                    /\ nskip' = nskip
-                    /\ IF d = {} THEN nbad' = nbad
-                       ELSE /\ nbad' = nbad + 1
-                            /\ PrintT("@@bad " \o ToJson([line |-> i, diag |-> d, fmt |-> rec.fmt, l |-> e.l,
-                                                          feats |-> HFeats(rec)]))
+            /\ IF shapeok THEN TRUE
+               ELSE PrintT("@@shape " \o ToJson([line |-> i, want |-> want, got |-> [j \in DOMAIN all |-> Key(all[j])]]))
+            /\ nskip' = nskip + Cardinality({j \in DOMAIN all : ~InDomain(RecOf(all[j]))})
+            /\ nbad' = nbad + Cardinality(badset)
+            /\ \A j \in badset :
+                  PrintT("@@bad " \o ToJson([line |-> i, sub |-> j - 1, diag |-> DiagOf(all[j]), fmt |-> RecOf(all[j]).fmt,
+                                              l |-> all[j].l, feats |-> HFeats(RecOf(all[j])) \cup NestFeats(ms, all[j])]))
 
 TSpec == TInit /\ [][TNext]_tvars
 
